@@ -1,4 +1,5 @@
 import FtdcVerif.Lemmas.Hdr
+import FtdcVerif.Lemmas.CodeTie
 /-!
 # C12 — HDR histogram honours its precision and counting contract
 
@@ -90,5 +91,73 @@ on which the unrepaired sizing loop failed (F12). -/
 example : Valid 1 2048 3 := ⟨by decide, by decide, by decide, by decide⟩
 example : (recordValue (new 1 2048 3) 2048).isSome = true :=
   record_succeeds ⟨by decide, by decide, by decide, by decide⟩ 2048 (by decide)
+
+/-! ### The Go text itself (regenerated)
+
+`Ftdc.Gen.Hdr.*` (Gen/Code.lean) is rewritten from `hdrhist/hdr.go` by the translator on every run of this
+check: `bitLen`, `getBucketIndex`, `getSubBucketIdx`, `countsIndex`, `countsIndexFor`, `valueFromIndex`,
+`sizeOfEquivalentValueRange`, `lowestEquivalentValue`, `nextNonEquivalentValue`, `highestEquivalentValue`,
+`medianEquivalentValue`, `getCountAtIndex`.  `go_code_is_model` says the translated functions compute what the
+hand-written model computes (all configurations `New` can establish, all values below 2^63), and the three
+theorems after it restate the property's index and range clauses about the translated Go functions. -/
+section go
+open Ftdc.CodeTie
+
+theorem go_code_is_model {h : Hist} (wf : WF h) (v : Nat) (hv : v < 2 ^ 63) (b s : Nat) :
+    Gen.Hdr.bitLen (v : Int) = (bitLen v : Int) ∧
+    Gen.Hdr.getBucketIndex (cfgOf h) v = (getBucketIndex h v : Int) ∧
+    Gen.Hdr.getSubBucketIdx (cfgOf h) v b = (getSubBucketIdx h v b : Int) ∧
+    Gen.Hdr.countsIndex (cfgOf h) b s = countsIndex h b s ∧
+    Gen.Hdr.countsIndexFor (cfgOf h) v = countsIndexFor h v ∧
+    Gen.Hdr.valueFromIndex (cfgOf h) b s = (valueFromIndex h b s : Int) ∧
+    Gen.Hdr.sizeOfEquivalentValueRange (cfgOf h) v = (sizeOfRange h v : Int) ∧
+    Gen.Hdr.lowestEquivalentValue (cfgOf h) v = (lowestEquiv h v : Int) ∧
+    Gen.Hdr.nextNonEquivalentValue (cfgOf h) v = (nextNonEquiv h v : Int) ∧
+    Gen.Hdr.highestEquivalentValue (cfgOf h) v = (highestEquiv h v : Int) ∧
+    Gen.Hdr.medianEquivalentValue (cfgOf h) v = (medianEquiv h v : Int) ∧
+    Gen.Hdr.getCountAtIndex (cfgOf h) b s = getCountAt h b s :=
+  ⟨bitLen_tie v, getBucketIndex_tie wf v hv, getSubBucketIdx_tie h v b, countsIndex_tie h b s,
+   countsIndexFor_tie wf v hv, valueFromIndex_tie h b s, sizeOfEquivalentValueRange_tie wf v hv,
+   lowestEquivalentValue_tie wf v hv, nextNonEquivalentValue_tie wf v hv, highestEquivalentValue_tie wf v hv,
+   medianEquivalentValue_tie wf v hv, getCountAtIndex_tie h b s⟩
+
+theorem lt63 (hv : Valid minV maxV s) {v : Nat} (hle : v ≤ maxV) : v < 2 ^ 63 := by
+  have := hv.maxLt; omega
+
+/-- hdr.go's `countsIndexFor` stays inside the counts array for every value up to the highest trackable one
+(so `RecordValue` succeeds). -/
+theorem go_index_in_range (hv : Valid minV maxV s) (v : Nat) (hle : v ≤ maxV) :
+    0 ≤ Gen.Hdr.countsIndexFor (cfgOf (new minV maxV s)) v ∧
+    Gen.Hdr.countsIndexFor (cfgOf (new minV maxV s)) v < (cfgOf (new minV maxV s)).countsLen := by
+  rw [countsIndexFor_tie (new_wf hv) v (lt63 hv hle)]
+  exact index_in_range (new_wf hv) (v := v) hle
+
+/-- hdr.go's `lowestEquivalentValue` / `highestEquivalentValue` bracket the value. -/
+theorem go_value_in_reported_range (hv : Valid minV maxV s) (v : Nat) (hle : v ≤ maxV) :
+    Gen.Hdr.lowestEquivalentValue (cfgOf (new minV maxV s)) v ≤ v ∧
+    (v : Int) ≤ Gen.Hdr.highestEquivalentValue (cfgOf (new minV maxV s)) v := by
+  rw [lowestEquivalentValue_tie (new_wf hv) v (lt63 hv hle), highestEquivalentValue_tie (new_wf hv) v (lt63 hv hle)]
+  have := value_in_range (new_wf hv) hle
+  omega
+
+/-- hdr.go's `sizeOfEquivalentValueRange` is the unit or at most `v / 10^sigfigs`. -/
+theorem go_range_width_bound (hv : Valid minV maxV s) (v : Nat) (hle : v ≤ maxV) :
+    (Gen.Hdr.sizeOfEquivalentValueRange (cfgOf (new minV maxV s)) v = ((2 ^ (new minV maxV s).unitMag : Nat) : Int) ∧
+        ((2 ^ (new minV maxV s).unitMag : Nat) : Int) ≤ max 1 minV) ∨
+    Gen.Hdr.sizeOfEquivalentValueRange (cfgOf (new minV maxV s)) v * 10 ^ s ≤ v := by
+  rw [sizeOfEquivalentValueRange_tie (new_wf hv) v (lt63 hv hle)]
+  rcases range_width_bound hv v hle with ⟨h1, h2⟩ | h
+  · left; exact ⟨by rw [h1], h2⟩
+  · right; exact_mod_cast h
+
+/-- the fuel of the translated `bitLen` loop (64 rounds) is never exhausted on an int64: the loop has stopped
+on its own (`x < 0x8000`) — so the fuel bound does not change the meaning of the Go loop -/
+theorem go_bitLen_is_bit_length (v : Nat) (hv : v < 2 ^ 64) :
+    Gen.Hdr.bitLen (v : Int) = ((if v = 0 then 0 else Nat.log2 v + 1 : Nat) : Int) := by
+  rw [bitLen_tie, bitLen_eq_blen v hv]; rfl
+
+example : Gen.Hdr.countsIndexFor (cfgOf (new 1 2048 3)) 2048 = 2048 := by decide
+
+end go
 
 end Ftdc.Props.C12
